@@ -576,6 +576,79 @@ void carquet_column_reader_release_retired_pages(carquet_column_reader_t* reader
 }
 
 /* ============================================================================
+ * Helper: page header parsing
+ * ============================================================================
+ *
+ * A page header has no fixed maximum size: statistics carry arbitrary-length
+ * min/max values and newer writers add fields. The window handed to the Thrift
+ * parser therefore must not be a constant.
+ */
+
+/* mmap / buffer: everything from the page offset to the end of the file */
+static carquet_status_t parse_page_header_mmap(
+    const carquet_reader_t* file_reader,
+    int64_t offset,
+    parquet_page_header_t* page_header,
+    size_t* header_size,
+    carquet_error_t* error) {
+
+    if (offset < 0 || (uint64_t)offset >= (uint64_t)file_reader->file_size) {
+        CARQUET_SET_ERROR(error, CARQUET_ERROR_INVALID_PAGE, "Page offset outside the file");
+        return CARQUET_ERROR_INVALID_PAGE;
+    }
+    return parquet_parse_page_header(
+        file_reader->mmap_data + offset,
+        file_reader->file_size - (size_t)offset,
+        page_header, header_size, error);
+}
+
+/* stdio: start with a small window, widen it while the parser fails and the
+ * file still had more bytes to offer */
+static carquet_status_t parse_page_header_fread(
+    FILE* file,
+    int64_t offset,
+    parquet_page_header_t* page_header,
+    size_t* header_size,
+    carquet_error_t* error) {
+
+    size_t window = 256;
+    for (;;) {
+        uint8_t small_buf[256];
+        uint8_t* heap_buf = NULL;
+        uint8_t* buf = small_buf;
+        if (window > sizeof(small_buf)) {
+            heap_buf = malloc(window);
+            if (!heap_buf) {
+                CARQUET_SET_ERROR(error, CARQUET_ERROR_OUT_OF_MEMORY, "Failed to allocate page header buffer");
+                return CARQUET_ERROR_OUT_OF_MEMORY;
+            }
+            buf = heap_buf;
+        }
+
+        if (fseek(file, (long)offset, SEEK_SET) != 0) {
+            free(heap_buf);
+            CARQUET_SET_ERROR(error, CARQUET_ERROR_FILE_SEEK, "Failed to seek to page header");
+            return CARQUET_ERROR_FILE_SEEK;
+        }
+        size_t got = fread(buf, 1, window, file);
+        if (got < 8) {
+            free(heap_buf);
+            CARQUET_SET_ERROR(error, CARQUET_ERROR_FILE_READ, "Failed to read page header");
+            return CARQUET_ERROR_FILE_READ;
+        }
+
+        carquet_status_t status = parquet_parse_page_header(
+            buf, got, page_header, header_size, error);
+        free(heap_buf);
+
+        if (status == CARQUET_OK || got < window || window >= ((size_t)16 << 20)) {
+            return status;
+        }
+        window *= 8;
+    }
+}
+
+/* ============================================================================
  * Helper: Load dictionary page (mmap path)
  * ============================================================================
  */
@@ -594,8 +667,8 @@ static carquet_status_t load_dictionary_page_mmap(
 
     parquet_page_header_t page_header;
     size_t header_size;
-    carquet_status_t status = parquet_parse_page_header(
-        header_ptr, 256, &page_header, &header_size, error);
+    carquet_status_t status = parse_page_header_mmap(
+        file_reader, dict_offset, &page_header, &header_size, error);
     if (status != CARQUET_OK) {
         return status;
     }
@@ -687,17 +760,10 @@ static carquet_status_t load_dictionary_page_fread(
     }
 
     /* Read page header */
-    uint8_t header_buf[256];
-    size_t header_read = fread(header_buf, 1, sizeof(header_buf), file);
-    if (header_read < 8) {
-        CARQUET_SET_ERROR(error, CARQUET_ERROR_FILE_READ, "Failed to read dictionary header");
-        return CARQUET_ERROR_FILE_READ;
-    }
-
     parquet_page_header_t page_header;
     size_t header_size;
-    carquet_status_t status = parquet_parse_page_header(
-        header_buf, header_read, &page_header, &header_size, error);
+    carquet_status_t status = parse_page_header_fread(
+        file, col_meta->dictionary_page_offset, &page_header, &header_size, error);
     if (status != CARQUET_OK) {
         return status;
     }
@@ -818,8 +884,8 @@ static carquet_status_t load_next_page_mmap(
 
     parquet_page_header_t page_header;
     size_t header_size;
-    carquet_status_t status = parquet_parse_page_header(
-        header_ptr, 256, &page_header, &header_size, error);
+    carquet_status_t status = parse_page_header_mmap(
+        file_reader, page_offset, &page_header, &header_size, error);
     if (status != CARQUET_OK) {
         return status;
     }
@@ -1017,17 +1083,10 @@ static carquet_status_t load_next_page_fread(
     }
 
     /* Read page header */
-    uint8_t header_buf[256];
-    size_t header_read = fread(header_buf, 1, sizeof(header_buf), file);
-    if (header_read < 8) {
-        CARQUET_SET_ERROR(error, CARQUET_ERROR_FILE_READ, "Failed to read page header");
-        return CARQUET_ERROR_FILE_READ;
-    }
-
     parquet_page_header_t page_header;
     size_t header_size;
-    carquet_status_t status = parquet_parse_page_header(
-        header_buf, header_read, &page_header, &header_size, error);
+    carquet_status_t status = parse_page_header_fread(
+        file, data_offset + reader->current_page, &page_header, &header_size, error);
     if (status != CARQUET_OK) {
         return status;
     }
